@@ -1,6 +1,6 @@
 """C05 — ModifyAckDeadline replaces the deadline; zero means nack."""
 from engine import rule, CheckBroken
-from intervals import IntervalWalker, merge_partition, INT_RANGES
+from intervals import IntervalWalker, merge_partition, compare_partitions, INT_RANGES
 from slicing import Slicer
 from common import short_ty
 import libmodel as L
@@ -76,16 +76,21 @@ def r05_1(prog, out):
         for p in paths:
             items.append((p.lo, p.hi, classify_duration_path(prog, bi, p, is_input)))
         got = merge_partition(items)
-        # equal labels for from_secs(600) written as a literal or as the capped value
-        if got == expected:
-            out.holds(key, prog.loc(pid), "partition of i32 is exactly %s" % got)
+        diffs = compare_partitions(got, expected, secs_point_equiv)
+        if not diffs:
+            out.holds(key, prog.loc(pid), "partition of i32 is %s" % got)
         else:
-            diffs = diff_partition(got, expected)
             if any("?" in g[2] for g in got):
                 out.undecided(key, prog.loc(pid), "a path produces a value the analysis cannot classify: %s" % got)
             else:
                 out.violation(key, prog.loc(pid), "seconds are mapped differently from the specification on %s" % "; ".join(diffs),
                               ["got      %s" % got, "expected %s" % expected])
+
+
+def secs_point_equiv(a, b, v):
+    """`from_secs(input)` at the single point v is `from_secs(v)`"""
+    norm = lambda l: l.replace(" input)", " %d)" % v)
+    return norm(a) == norm(b)
 
 
 def diff_partition(got, expected):
